@@ -80,6 +80,18 @@ class SRat:
     def __neg__(s):
         return SRat(-s.e)
 
+    def __floordiv__(s, o):
+        r = _real(o)
+        if r is None:
+            return NotImplemented
+        return SInt(z3.ToInt(s.e / r))  # z3 ToInt is floor
+
+    def __rfloordiv__(s, o):
+        r = _real(o)
+        if r is None:
+            return NotImplemented
+        return SInt(z3.ToInt(r / s.e))
+
     def _c(s, o, f):
         r = _real(o)
         if r is None:
